@@ -32,14 +32,27 @@ def dispatch_exhaustive(prog, rep):
                         if isinstance(e, ast.Constant) and isinstance(e.value, str):
                             out.add(e.value)
         return out
-    disp = literals_in(prog.method("StockDrivenDSM", "_compute_cohorts_and_inflow"), "solver")
+    sd = prog.cls("StockDrivenDSM")
+    disp, val_by_cls = set(), {}
+    for cls_name in ("StockDrivenDSM", "StockDefinition"):
+        for c in prog.mro(prog.cls(cls_name)):
+            for f in c.methods.values():
+                lits = literals_in(f, "solver")
+                if not lits:
+                    continue
+                if f.validator_kind:
+                    val_by_cls.setdefault(cls_name, set()).update(lits)
+                elif cls_name == "StockDrivenDSM":
+                    disp |= lits
+    if not disp or set(val_by_cls) != {"StockDrivenDSM", "StockDefinition"}:
+        raise AnalysisError("solver dispatch / validators not found (no comparison of `solver` with string literals)")
     for cls in ("StockDrivenDSM", "StockDefinition"):
-        val = literals_in(prog.method(cls, "init_solver"), "solver")
+        val = val_by_cls[cls]
         ok = val == disp and len(val) >= 1
-        rep.oblige(rid, ok, where=f"{cls}.init_solver", what=f"accepted {sorted(val)} / dispatched {sorted(disp)}")
+        rep.oblige(rid, ok, where=f"{cls} solver validator", what=f"accepted {sorted(val)} / dispatched {sorted(disp)}")
         if not ok:
-            f = prog.method(cls, "init_solver")
-            rep.add(Finding("C10", rid, f.module, f.qual, f"def init_solver", f"{cls} accepts solvers {sorted(val)} but the stock-driven model dispatches on {sorted(disp)}", line=f.node.lineno))
+            f = next(m for c in prog.mro(prog.cls(cls)) for m in c.methods.values() if m.validator_kind and literals_in(m, "solver"))
+            rep.add(Finding("C10", rid, f.module, f.qual, f"def {f.name}", f"{cls} accepts solvers {sorted(val)} but the stock-driven model dispatches on {sorted(disp)}", line=f.node.lineno))
 
 
 def run(prog, rep):
